@@ -16,6 +16,8 @@ def load_check(pid):
 
 def main(argv):
     pid, tier, seed, label, jobs, outfile = argv[:6]
+    from vk.pool import _die_with_parent
+    _die_with_parent()
     seed = int(seed)
     jobs = int(jobs)
     replay = None
